@@ -29,7 +29,8 @@ func init() {
 			"credential map class: none/empty map/one/many/empty username/empty password/255-byte/over-long/placeholders; JSON or Caddyfile) x " +
 			"(client byte script: greeting class x RFC 1929 message class x command code x address type x target live/closed x mutation: " +
 			"truncation at every offset, trailing garbage, pipelined second request, bit flips, lying length fields). The reference state machine (RFC 1928/1929 + property text) " +
-			"classifies the script as must-refuse / must-permit (enabled CONNECT of an authenticated client to a live target) / not prescribed. " +
+			"Some placeholder configurations are provisioned a second time, while the first handler is still alive, after the variable behind the password placeholder was rotated (a reload): the sessions then run against the new handler and the model with the new password. " +
+			"The reference classifies the script as must-refuse / must-permit (enabled CONNECT of an authenticated client to a live target) / not prescribed. " +
 			"Monitors: reply oracle, accept log of all harness targets, strace bracket of the session (no connect() to a target port, no bind()/listen() at all when must-refuse). " +
 			"non-trivial = the server sent at least one byte; distinct = hash(command-set class, credential class, greeting class, auth class, command class, address/target class, mutation class)",
 		Assumptions: []string{
@@ -51,6 +52,11 @@ func init() {
 }
 
 const tracedEnv = "VERIF_C16_TRACED"
+
+const (
+	originalPass = "envpass"
+	rotatedPass  = "envpass-rotated"
+)
 
 func run(c *fw.Ctx) {
 	if os.Getenv(tracedEnv) != "" {
@@ -77,6 +83,7 @@ type trailer struct {
 	Done            bool           `json:"done"`
 	ConfigsLoaded   int            `json:"configs_loaded"`
 	ConfigsRejected map[string]int `json:"configs_rejected"`
+	ReloadJobs      int            `json:"reload_jobs"`
 }
 
 func sessionsPath(dir string, shard int) string {
@@ -111,6 +118,9 @@ func runInner(c *fw.Ctx, outDir string, traced bool) error {
 		cfgK int
 		spec *CfgSpec
 		sess []*Session
+		// reloadFrom: a handler with the same configuration text was provisioned earlier, when the environment
+		// variable behind its password placeholder still had another value, and is still alive (a reload)
+		reloadFrom *CfgSpec
 	}
 	var jobs []job
 	planned := 0
@@ -119,8 +129,26 @@ func runInner(c *fw.Ctx, outDir string, traced bool) error {
 			continue
 		}
 		spec := genConfig(c.Seed, n)
-		jobs = append(jobs, job{n, spec, []*Session{genSession(c.Seed, n, n, spec)}})
+		jobs = append(jobs, job{cfgK: n, spec: spec, sess: []*Session{genSession(c.Seed, n, n, spec)}})
 		planned++
+		if strings.HasPrefix(spec.CredLabel, "placeholder") && !strings.Contains(spec.CredLabel, "empty") && n%2 == 0 {
+			// the same configuration text after the password behind {env.VERIF_PASS} was rotated
+			spec2 := genConfig(c.Seed, n)
+			rot := func(ps []Pair) []Pair {
+				out := append([]Pair(nil), ps...)
+				for i := range out {
+					out[i].Pass = strings.ReplaceAll(out[i].Pass, originalPass, rotatedPass)
+				}
+				return out
+			}
+			spec2.Model.Pairs, spec2.GenPairs = rot(spec2.Model.Pairs), rot(spec2.GenPairs)
+			var ss []*Session
+			for q := 0; q < 6; q++ {
+				ss = append(ss, genSession(c.Seed, 3000000+n*8+q, n, spec2))
+			}
+			jobs = append(jobs, job{cfgK: n, spec: spec2, sess: ss, reloadFrom: spec})
+			planned += len(ss)
+		}
 	}
 	for fam := 0; fam < nFamilies; fam++ {
 		if !c.Mine(fam) {
@@ -129,7 +157,7 @@ func runInner(c *fw.Ctx, outDir string, traced bool) error {
 		k := 1000003 + fam*37
 		spec := genConfig(c.Seed, k)
 		ss := truncationFamily(c.Seed, 1000000+fam*1000, k, spec, fam)
-		jobs = append(jobs, job{k, spec, ss})
+		jobs = append(jobs, job{cfgK: k, spec: spec, sess: ss})
 		planned += len(ss)
 	}
 	emit(header{Header: true, Ports: w.ports, Traced: traced, Sessions: planned})
@@ -140,10 +168,22 @@ func runInner(c *fw.Ctx, outDir string, traced bool) error {
 
 	tr := trailer{Done: true, ConfigsRejected: map[string]int{}}
 	for _, j := range jobs {
+		cancelOld := func() {}
+		if j.reloadFrom != nil {
+			if _, co, _, err := loadHandler(j.reloadFrom); err == nil {
+				cancelOld = co
+			}
+			os.Setenv("VERIF_PASS", rotatedPass)
+			tr.ReloadJobs++
+		}
 		h, cancel, cfgJSON, err := loadHandler(j.spec)
+		if j.reloadFrom != nil {
+			os.Setenv("VERIF_PASS", originalPass)
+		}
 		if err != nil {
 			// a configuration the module refuses to load serves nobody: count it, nothing to drive
 			tr.ConfigsRejected[j.spec.CmdLabel+"|"+j.spec.CredLabel+"|"+j.spec.Via+": "+clip(err.Error(), 80)]++
+			cancelOld()
 			continue
 		}
 		tr.ConfigsLoaded++
@@ -156,6 +196,7 @@ func runInner(c *fw.Ctx, outDir string, traced bool) error {
 			emit(rec)
 		}
 		cancel()
+		cancelOld()
 	}
 	emit(tr)
 	return nil
